@@ -361,9 +361,14 @@ func (x *router) dispatchToRoutees(ctx *ReceiveContext, msg any, routees []*PID)
 func (x *router) routeByStrategy(ctx *ReceiveContext, msg any, routees []*PID) {
 	switch x.routingStrategy {
 	case RoundRobinRouting:
-		n := atomic.AddUint32(&x.roundRobinNext, 1)
-		routee := routees[(int(n)-1)%len(routees)]
-		ctx.Tell(routee, msg)
+		// the counter holds the position of the next pick and is kept in
+		// [0, len) (routing runs on the router's own turn): the former
+		// routees[(int(n)-1)%len] was -1 when the 32-bit counter wrapped to zero,
+		// and a wrap also broke the cycle for pool sizes that do not divide 2^32.
+		size := uint32(len(routees))
+		idx := atomic.LoadUint32(&x.roundRobinNext) % size
+		atomic.StoreUint32(&x.roundRobinNext, (idx+1)%size)
+		ctx.Tell(routees[idx], msg)
 	case RandomRouting:
 		routee := routees[rand.IntN(len(routees))] //nolint:gosec
 		ctx.Tell(routee, msg)
@@ -609,12 +614,22 @@ func routeeName(index int, routerName string) string {
 
 func (x *router) availableRoutees() ([]*PID, bool) {
 	routees := make([]*PID, 0, x.poolSize)
+	removed := false
 	for _, routee := range x.routeesMap {
 		if !routee.IsRunning() {
 			delete(x.routeesMap, routee.ID())
+			removed = true
+			continue
 		}
 		routees = append(routees, routee)
 	}
+	if removed {
+		// keys owned by a routee that stopped on its own must get a new, stable owner
+		x.rebuildHashRing()
+	}
+	// map iteration order is random: give the routees one stable order so that
+	// round-robin really cycles through them
+	sort.Slice(routees, func(i, j int) bool { return routees[i].ID() < routees[j].ID() })
 	return routees, len(routees) > 0
 }
 
@@ -687,6 +702,12 @@ func newConsistentHashRing(hasher hash.Hasher, virtualNodes int) *consistentHash
 // set rebuilds the ring with the given set of member IDs, replacing all
 // previous members. Passing an empty slice clears the ring.
 func (r *consistentHashRing) set(members []string) {
+	// when two virtual nodes hash to the same point the later member wins:
+	// process the members in one stable order (callers build the list from a
+	// map) so that a rebuild never moves keys whose owner is still a member
+	members = slices.Clone(members)
+	slices.Sort(members)
+
 	r.ring = make(map[uint64]string, len(members)*r.virtualNodes)
 	r.keys = make([]uint64, 0, len(members)*r.virtualNodes)
 
